@@ -149,6 +149,13 @@ SingleCallerBroken(ch) ==
   \E m \in Meths : D.bodies[m].single /\ TFD(ch, m) # {} /\ Cardinality(SitesTo(m)) > 1
 DepConflict(ch, conf) == \E t \in Trans : \E d \in RDepsD(t) \cap Trans : <<t, d>> \in conf
 
+\* Usage rule of the library that is NOT one of C11's listed defects: schedule_before(a, b) with a
+\* defined after b is refused ("scheduled before ... but defined afterwards").  Body structure ids are
+\* numbered in definition order.  Such designs are outside C11's quantifier: a raise is excused, nothing
+\* is demanded (the generator does not produce them; this only keeps replayed / shrunk designs honest).
+LateBefore ==
+  \E r \in Rels : D.rels[r].kind = "before" /\ D.bodies[D.rels[r].a].sid > D.bodies[D.rels[r].b].sid
+
 VerdictD(ch, conf, prio) ==
   IF Recursive(ch) THEN "recursion"
   ELSE IF DoubleCall(ch) THEN "doubleCall"
